@@ -357,3 +357,45 @@ pub fn json_of_shape(v: &FieldValue) -> Option<Json> {
         V::Bytes(_) => return None,
     })
 }
+
+/// The value as storage hands it back before re-validation, computed independently: untyped
+/// positions (`Array([])`, `Map({})`, non-JSON leftovers under `Json`) become their schema-less
+/// image, declared positions keep their variant.
+pub fn read_image(ft: &FieldType, v: &FieldValue) -> FieldValue {
+    use FieldType as T;
+    use FieldValue as V;
+    match (ft, v) {
+        (T::Option(t), v) if *v != V::Null => read_image(t, v),
+        (T::Array(ts), V::Array(xs)) if ts.len() == 1 => V::Array(xs.iter().map(|x| read_image(&ts[0], x)).collect()),
+        (T::Array(ts), V::Array(xs)) if ts.len() >= 2 => V::Array(xs.iter().enumerate().map(|(i, x)| ts.get(i).map_or_else(|| generic(x), |t| read_image(t, x))).collect()),
+        (T::Array(_), v) => generic(v),
+        (T::Map(m), V::Map(vals)) if !m.is_empty() => {
+            let w = wildcard_of(m);
+            V::Map(vals.iter().map(|(k, x)| (k.clone(), match w.map(|(_, t)| t).or_else(|| m.get(k)) { Some(t) => read_image(t, x), None => generic(x) })).collect())
+        }
+        (T::Map(_), v) => generic(v),
+        (T::Json, V::Json(_)) => v.clone(),
+        (T::Json, v) => generic(v),
+        (_, v) => v.clone(),
+    }
+}
+
+/// Known finding F2, narrowly: the written value is within the budget, but a `Vector` under an
+/// untyped position is counted element-wise once read back, which puts the read image over it.
+pub fn vector_outgrows_budget(ft: &FieldType, stored: &FieldValue) -> bool {
+    fn has_vector(v: &FieldValue) -> bool {
+        match v {
+            FieldValue::Vector(_) => true,
+            FieldValue::Array(xs) => xs.iter().any(has_vector),
+            FieldValue::Map(m) => m.values().any(has_vector),
+            _ => false,
+        }
+    }
+    let img = read_image(ft, stored);
+    has_vector(stored) && within_budget(stored, DEFAULT_BUDGET) && !within_budget(&img, DEFAULT_BUDGET) && {
+        // and nothing else is wrong with the read image
+        let mut m = Measure::default();
+        measure(&img, 0, &mut m);
+        m.depth <= MAX_DEPTH && m.map <= MAX_MAP
+    }
+}
